@@ -33,6 +33,19 @@ pub fn boundary_lens(w: usize, w2: usize, cap: Option<usize>, max: usize) -> Vec
     v
 }
 
+/// Lengths well beyond the fixed capacities, for the dynamic and auto types: word boundaries of 64 and their
+/// neighbours up to 4097 bits plus a few "odd" ones.
+pub fn long_lens(tier: crate::report::Tier) -> Vec<usize> {
+    match tier {
+        crate::report::Tier::Tiny => vec![513, 1025],
+        crate::report::Tier::Quick => vec![257, 320, 511, 512, 513, 520, 577, 640, 777, 1023, 1024, 1025, 2049, 4097],
+        crate::report::Tier::Thorough => vec![
+            257, 319, 320, 321, 383, 384, 385, 448, 511, 512, 513, 520, 575, 576, 577, 639, 640, 641, 777, 1000, 1023, 1024, 1025, 1088, 1500,
+            2047, 2048, 2049, 3000, 4095, 4096, 4097, 8191, 8193,
+        ],
+    }
+}
+
 /// Default maximum length used for the dynamic types in boundary sweeps.
 pub fn dyn_max(tier: crate::report::Tier) -> usize {
     tier.pick(130, 200, 260)
